@@ -48,6 +48,7 @@ def required_cells(tier):
             'search-path-shape:first-entry:found', 'search-path-shape:tuple:found',
             'search-path-shape:plain-directories-named-like-the-packages-come-first:found',
             'search-path-shape:plain-directories-named-like-the-packages-come-last:found',
+            'search-path-shape:empty-string-entry:found',
             'import:requested-file-wins-a-name-conflict', 'import:zip-archive:ok', 'import:zip-archive:raises',
             'resolve:through-a-symlink-below-the-root', 'import:submodule-name-rebound-by-the-package']
 
@@ -244,6 +245,7 @@ def check_tree(ctx, idx, seed):
                     f.write('x\n')
                 shapes.append(('plain-directories-named-like-the-packages-come-first', [shadow_dir, root], exp))
                 shapes.append(('plain-directories-named-like-the-packages-come-last', [root, shadow_dir], exp))
+            shapes.append(('empty-string-entry', ['', root], exp))
             for shape, sps, want in shapes:
                 ctx.evaluation()
                 case = {'index': idx, 'case_seed': seed, 'name': name, 'search_path_shape': shape}
@@ -251,6 +253,7 @@ def check_tree(ctx, idx, seed):
                     w = want
                     if w and hide_main and os.path.basename(w) == '__main__.py':
                         continue
+                    given = list(sps) if isinstance(sps, list) else None
                     try:
                         got = util_import.modname_to_modpath(name, hide_init=False, hide_main=hide_main, sys_path=sps)
                     except Exception as ex:
@@ -258,6 +261,11 @@ def check_tree(ctx, idx, seed):
                             name, shape, ex, listing), case)
                         continue
                     ctx.event('resolutions_compared')
+                    if given is not None and sps != given:
+                        ctx.violation('search-path-changed', 'modname_to_modpath(%r, sys_path=%r) changed the list it was given to %r' % (
+                            name, given, sps), case)
+                        sps[:] = given
+                        continue
                     if (got and os.path.realpath(got)) != (w and os.path.realpath(w)):
                         ctx.violation('resolve', 'modname_to_modpath(%r, hide_main=%r, sys_path=<%s>) -> %r but the import system, '
                                       'given that search path, would load %r; tree %r' % (
